@@ -724,6 +724,19 @@ pub fn work_list(cfg: &RunCfg) -> WorkList {
     for w in corpus::alt_order(false).iter() {
         fixed.push(Item::new(w, "alt-order"));
     }
+    // (C05 runs every pattern through every entry point: it takes the family without the
+    // hard neighbours)
+    for w in corpus::capture_restore(cfg.prop != "C05").iter() {
+        fixed.push(Item::new(w, "capture-restore"));
+    }
+    if cfg.prop != "C05" {
+        for w in corpus::wide_cut().iter() {
+            let mut it = Item::new(w, "wide-cut");
+            // the point of these is the number of state operations, not the text
+            it.n_extra = 0;
+            fixed.push(it);
+        }
+    }
     if cfg.prop == "C15" {
         for (e, s) in crate::exprgen::conditional_families() {
             fixed.push(Item::from_tree(e, &s, "conditional-branches-tree"));
@@ -750,6 +763,10 @@ pub fn work_list(cfg: &RunCfg) -> WorkList {
     }
     if cfg.prop == "C15" {
         for w in ["(a)?(?(1)b|c)", "(?(a)b|c)", "(?(a)b)", "(a)?(?(1))b", "(?<n>a)?(?(<n>)b|c)", "(?:(a)|b)(?(1)c|d)", "(?:(?(a)b|c))+", "(?>(?(a)b|c)d|.)", "(?(?=a)ab|c)", "(?(?!a)b|a)",
+                  // a conditional inside the group it tests, re-entered by a loop: the group has
+                  // matched in an earlier iteration and is open again (seed S6-C15)
+                  "(?:(a|(?(1)b|c))-)+", "(?:-(a|(?(1)b)))+", "(?:(a|(?(1)b|c))c)+", "(?:(|(?(1)b|c))a)+", "(?:(a|(?(1)))b)+", "(?:(?<g>a|(?(<g>)b|c))a)+",
+                  "(?:(a|b(?(1)c|d)))+", "((?(1)a|b))+", "(?:(a)|(?(1)b|c))+",
                   "(?(a)b|c|d)", "(?((?(b)a))b|a)", "(?(a)(?(b)c|d)|e)", "(?:(a)|b)*(?(1)c)", "(a)?(?:(?(1)b|c))*d", "(?=(a))?(?(1)a|b)", "(?(a*)b|c)", "(?(a|ab)c|d)", "((?(2)a|b))(c)?"].iter() {
             fixed.push(Item::new(w, "witness"));
         }
